@@ -7,5 +7,9 @@ import J1939.Props.C13
 #print axioms J1939.Props.C13.c13_inv_claimAsync
 #print axioms J1939.Props.C13.c13_inv_addressClaim
 #print axioms J1939.Props.C13.c13_normal_has_address
+#print axioms J1939.Props.C13.c13_range_new
+#print axioms J1939.Props.C13.c13_range_claimAsync
+#print axioms J1939.Props.C13.c13_range_addressClaim
+#print axioms J1939.Props.C13.c13_never_at_null
 #print axioms J1939.Props.C13.c13_no_address_is_null
 #print axioms J1939.Props.C13.c13_only_claim_traffic
